@@ -54,6 +54,9 @@ CHECKS = {
  "C11": dict(cat="exploration", ref="6/C11", tech="metamorphic monitor over all 32 option combinations (pairs at Hamming distance 1 vs documented delta) and CLI-vs-convert byte comparison with an audit hook on file opens",
    text="for each program all option combinations are converted; each single-option change must produce exactly its documented delta; decb_to_b09.start(argv) must write convert(text, mapped options, procname=stem) with CR line ends and touch no other file",
    note="documented deltas: DESIGN.md section 6/C11"),
+ "C04": dict(cat="exploration", ref="6/C04", tech="event-trace monitor: RUN/POKE events of the reference BASIC09 interpreter executing convert() output vs the events the Color BASIC reference derives from a role table; positions mapped to PARAM names of the current library",
+   text="every device statement form x presence pattern of optional operands (exhaustive) with operand kinds rotated / multiplied, each operand carrying a distinct value; procedure, parameter-name placement, defaults, call order of device functions and the HBUFF prologue are compared",
+   note="role table = DESIGN.md Appendix B; device procedures are stubs (their screen effect is not modelled)"),
 }
 
 def main():
